@@ -313,7 +313,9 @@ def run(ctx):
                     other = set(i for n2, ch in files.items() if n2 != name for i, _ in ch)
                     if not (up - other) <= st["mid_ids"]:
                         bad("edit locality: a chunk outside the disturbed range was uploaded", case, k, json.dumps(es[0]))
-                    if st["resync"] > 40 and not st["forced"]:
+                    # random content only (first letter of the name = content kind): periodic or constant
+                    # data legitimately never resynchronises when the shift is not a multiple of its cut pattern
+                    if name.startswith("r") and st["resync"] > 40 and not st["forced"]:
                         bad("edit locality: the chunker did not resynchronise within 40 chunks behind the edit", case, k, json.dumps(es[0]))
                     if len(samples) < 3 and st["pre"] > 0 and st["suffix"] > 0:
                         samples.append({"case": case, "backup": k, "edit": {**es[0], "op": OPN[es[0]["op"]]},
